@@ -104,10 +104,28 @@ func clientReload(w *World) {
 			if err != nil {
 				return
 			}
-			bmu.Lock()
-			backendConns++
-			bmu.Unlock()
-			go func() { io.Copy(c, c); c.Close() }()
+			// (a tcp health check of a live proxy connects here too, says nothing and leaves: what counts as "the
+			// backend was contacted" on behalf of a user is a connection that delivers something)
+			go func() {
+				defer c.Close()
+				buf := make([]byte, 4096)
+				first := true
+				for {
+					n, err := c.Read(buf)
+					if n > 0 {
+						if first {
+							first = false
+							bmu.Lock()
+							backendConns++
+							bmu.Unlock()
+						}
+						c.Write(buf[:n])
+					}
+					if err != nil {
+						return
+					}
+				}
+			}()
 		}
 	})
 	mkProxy := func(name string, variant int) map[string]any {
